@@ -167,6 +167,19 @@ Theorem C11_maximize_nr : forall erfR llh tol max_steps max_reps bounds uniform 
 Proof. exact maximize_nr_value. Qed.
 Print Assumptions C11_maximize_nr.
 
+(* the objective closures handed to the minimisers read everything from their argument v: the source parameter
+   record array is created from v on every call (mk v) and that array, v and v[ns_pidx] are what evaluate and
+   calculate_ns_grad2 receive — no value survives from an earlier call *)
+Theorem C11_objective_closure : forall (mk : Z -> Z) (v nsidx vns : Z),
+  mx_closure_eval_values v = v /\
+  mx_closure_eval_recarray (mx_closure_recarray (mk v)) = mk v /\
+  mx_closure_grad2_recarray (mx_closure_recarray (mk v)) = mk v /\
+  mx_closure_grad2_ns nsidx vns = vns /\ mx_closure_grad2_ns_idx0 nsidx = nsidx /\
+  mx_closure_gen_eval_values v = v /\
+  mx_closure_gen_eval_recarray (mx_closure_gen_recarray (mk v)) = mk v.
+Proof. exact K_mx_closure. Qed.
+Print Assumptions C11_objective_closure.
+
 (* ---- non-vacuity ---- *)
 (* a strongly convex objective with non-vanishing second derivative meets the hypotheses *)
 Example C11_hyps_satisfiable :
